@@ -39,39 +39,53 @@ package yubiagent
 //@   ensures [errors-surface] (len(data) <= 16777216 && err == nil) ==> (ret(Writer.Write, n0, 1) == nil && ret(Writer.Write, n0 + 1, 1) == nil)
 //@   ensures len(data) <= 16777216 ==> calls(Writer.Write) >= n0 + 1 && calls(Writer.Write) <= n0 + 2
 
+//@ # the forwarder frames the request into a private buffer (one write call, to a buffer allocated here - never to the peer)
 //@ func newForwarder(req, resp)
-//@   modifies all
-//@   ensures true
+//@   flag logged
+//@   modifies nothing
+//@   let w0 = old(calls(yubiagent.write))
+//@   ensures [one-private-frame] calls(yubiagent.write) == w0 + 1 && arg(yubiagent.write, w0, 1) == req &&
+//@     typeof(arg(yubiagent.write, w0, 0)) == *bytes.Buffer && fresh(pl(arg(yubiagent.write, w0, 0)))
 
 //@ # ---------------------------------------------------------------- C12 / C20: the request loop
-//@ # the served agent: abstract, every method may fail; none of them touches this connection's framing functions
+//@ # the served agent: abstract, every method may fail; ASSUMPTION (flag nocallbacks): none of them calls this package's framing
+//@ # functions, its forwarder constructor or the shim server's Broadcast (otherwise every call log would be advanced across the call)
 //@ interface (shimagent.ShimAgent).AddHardCert(key, comment)
 //@   flag logged
+//@   flag nocallbacks
 //@   modifies all
 //@   ensures true
 //@ interface (shimagent.ShimAgent).Forward(req)
 //@   flag logged
+//@   flag nocallbacks
 //@   modifies all
 //@   ensures true
 //@ interface (shimagent.ShimAgent).Wait(agentMsg)
 //@   flag logged
+//@   flag nocallbacks
 //@   modifies all
 //@   ensures true
 //@ interface (YubiAgent).ListSlots()
 //@   flag logged
+//@   flag nocallbacks
 //@   modifies all
 //@   ensures true
 //@ interface (YubiAgent).ReadSlot(slot)
 //@   flag logged
+//@   flag nocallbacks
 //@   modifies all
 //@   ensures true
 //@ interface (YubiAgent).AttestSlot(slot)
 //@   flag logged
+//@   flag nocallbacks
 //@   modifies all
 //@   ensures true
 
 //@ ghost func reads() int = calls(yubiagent.read) - old(calls(yubiagent.read))
-//@ ghost func responses() int = (calls(yubiagent.write) - old(calls(yubiagent.write))) + (calls(agent.ServeAgent) - old(calls(agent.ServeAgent)))
+//@ # responses: frames written to the peer - every write call except the private one of each forwarder - plus requests handed to the x/crypto server
+//@ ghost func forwards() int = calls(newForwarder) - old(calls(newForwarder))
+//@ ghost func responses() int = (calls(yubiagent.write) - old(calls(yubiagent.write))) - forwards() + (calls(agent.ServeAgent) - old(calls(agent.ServeAgent)))
+//@ ghost func privateBuffer(w io.Writer) bool = typeof(w) == *bytes.Buffer && fresh(pl(w))
 
 //@ ghost func servesShim(a YubiAgent) bool = typeof(a) == *server && typeof(a.(*server).ShimAgent) == *shimagent.Server
 //@ func ServeAgent(agent, c)
@@ -83,7 +97,7 @@ package yubiagent
 //@   ensures [clean-eof] result == nil ==> (reads() >= 1 && ret(yubiagent.read, calls(yubiagent.read) - 1, 1) == io.EOF)
 //@   ensures [one-response-per-request] result == nil ==> responses() == reads() - 1
 //@   ensures [never-more-responses-than-requests] responses() <= reads()
-//@   ensures [responses-go-to-the-peer] forall(i, old(calls(yubiagent.write)) <= i && i < calls(yubiagent.write), arg(yubiagent.write, i, 0) == c)
+//@   ensures [responses-go-to-the-peer] forall(i, old(calls(yubiagent.write)) <= i && i < calls(yubiagent.write), arg(yubiagent.write, i, 0) == c || privateBuffer(arg(yubiagent.write, i, 0)))
 //@   ensures [reads-come-from-the-peer] forall(i, old(calls(yubiagent.read)) <= i && i < calls(yubiagent.read), arg(yubiagent.read, i, 0) == c)
 //@   ensures [every-request-code-is-announced-before-it-is-served] servesShim(agent) ==> (calls(Server.Broadcast) - old(calls(Server.Broadcast)) >= responses() &&
 //@     forall(k, old(calls(Server.Broadcast)) <= k && k < calls(Server.Broadcast),
@@ -93,8 +107,9 @@ package yubiagent
 //@   loop 1:
 //@     invariant reads() >= 0 && responses() == reads()
 //@     invariant (typeof(agent) == *server && typeof(agent.(*server).ShimAgent) == *shimagent.Server) ==> shimagent.condsOK(agent.(*server).ShimAgent.(*shimagent.Server))
-//@     invariant calls(yubiagent.write) >= old(calls(yubiagent.write)) && calls(agent.ServeAgent) >= old(calls(agent.ServeAgent))
-//@     invariant forall(i, old(calls(yubiagent.write)) <= i && i < calls(yubiagent.write), arg(yubiagent.write, i, 0) == c)
+//@     invariant calls(yubiagent.write) >= old(calls(yubiagent.write)) && calls(agent.ServeAgent) >= old(calls(agent.ServeAgent)) && forwards() >= 0 &&
+//@       forwards() == calls(agent.ServeAgent) - old(calls(agent.ServeAgent))
+//@     invariant forall(i, old(calls(yubiagent.write)) <= i && i < calls(yubiagent.write), arg(yubiagent.write, i, 0) == c || privateBuffer(arg(yubiagent.write, i, 0)))
 //@     invariant forall(i, old(calls(yubiagent.read)) <= i && i < calls(yubiagent.read), arg(yubiagent.read, i, 0) == c)
 //@     invariant [every-request-code-is-announced-before-it-is-served] servesShim(agent) ==> (calls(Server.Broadcast) - old(calls(Server.Broadcast)) == reads() &&
 //@       forall(k, old(calls(Server.Broadcast)) <= k && k < calls(Server.Broadcast),
